@@ -139,14 +139,6 @@ def landscape_case(case):
         i2 = np.asarray(land2.world2index(th, ph))
         if not np.array_equal(i1, i2):
             probs.append(('landscape-roundtrip-world2index', f'{i1} vs {i2}'))
-        # landscape as an argument of a jitted function (it is a pytree without array leaves)
-        try:
-            i3 = np.asarray(jax.jit(lambda l, t, p: l.world2index(t, p))(land, th, ph))
-            if not np.array_equal(i1, i3):
-                probs.append(('landscape-jit-argument', f'{i1} vs {i3}'))
-        except Exception as e:  # noqa: BLE001
-            err = P.LibError('jit with landscape argument', e)
-            probs.append(('landscape-jit-argument-raises', f'{type(land).__name__}: {err}'))
     else:
         c = np.asarray(land.pixel2index(jnp.asarray([0.0, 1.2, 5.0], dt), jnp.asarray([2.0, 0.4, 0.0], dt)))
         c2 = np.asarray(land2.pixel2index(jnp.asarray([0.0, 1.2, 5.0], dt), jnp.asarray([2.0, 0.4, 0.0], dt)))
